@@ -244,7 +244,7 @@ func (x *fsExec) check() (viol []sched.Violation, summary string, nontrivial boo
 	}
 	acked := map[string]bool{}    // message key
 	ackedEnd := map[string]bool{} // source end position id of an acknowledged pack
-	un := x.unprocessable()
+	_ = x.unprocessable
 	frozen := map[string]string{} // task/coll/channel -> frozen position id
 	failedOn := map[string]bool{} // stream -> a failure was injected on it
 	byStream := map[string][]*fsSrc{}
@@ -266,8 +266,14 @@ func (x *fsExec) check() (viol []sched.Violation, summary string, nontrivial boo
 		}
 		return sig
 	}
+	// collections the source catalog reported as dropped when the current incarnation started: the product does not
+	// replicate their remaining rows (they are about to be dropped downstream as well)
+	goneAtStart := ","
+	gone := func(s *fsSrc) bool { return strings.Contains(goneAtStart, fmt.Sprintf(",%d,", s.Coll)) }
 	for _, e := range x.events {
 		switch e.Kind {
+		case "restart":
+			goneAtStart = e.Detail
 		case "register":
 			msgs := byStream[e.Key]
 			if e.Reg == nil || len(e.Reg.MsgID) == 0 {
@@ -307,10 +313,13 @@ func (x *fsExec) check() (viol []sched.Violation, summary string, nontrivial boo
 			}
 			// no gap: every earlier data message of the stream has been acknowledged before this pack
 			for _, s := range byStream[ref.Stream] {
-				if s.Pack < ref.Pack && s.Kind != "dropColl" && !acked[s.Key] && !un[s.Key] {
+				if s.Pack < ref.Pack && s.Kind != "dropColl" && !acked[s.Key] && !gone(s) {
 					sig := "C05/ack-gap"
 					if failedOn[ref.Stream] {
 						sig = "C06/skipped-after-failure"
+					}
+					if s.Kind == "insPart" {
+						sig = "C06/skipped/unknown-partition"
 					}
 					add(rootSig(s, sig), "pack %d of stream %s was acknowledged (event %d) although message %s of pack %d of the same stream has never been acknowledged", ref.Pack, ref.Stream, e.N, s.ID, s.Pack)
 					break
@@ -355,7 +364,11 @@ func (x *fsExec) check() (viol []sched.Violation, summary string, nontrivial boo
 					continue
 				}
 				for _, s := range byStream[ref.Stream] {
-					if s.Pack <= ref.Pack && s.Kind != "dropColl" && !acked[s.Key] && !un[s.Key] {
+					if s.Pack <= ref.Pack && s.Kind != "dropColl" && !acked[s.Key] && !gone(s) {
+						if s.Kind == "insPart" {
+							add("C06/checkpoint-past-failed/unknown-partition", "checkpoint %s = %q (pack %d) written at event %d although message %s (pack %d), which could not be processed, lies before it", fk, id, ref.Pack, e.N, s.ID, s.Pack)
+							break
+						}
 						add(rootSig(s, "C05/checkpoint-ahead-of-ack"), "checkpoint %s = %q (pack %d) written at event %d while message %s (pack %d) of that stream has not been acknowledged", fk, id, ref.Pack, e.N, s.ID, s.Pack)
 						break
 					}
@@ -368,7 +381,11 @@ func (x *fsExec) check() (viol []sched.Violation, summary string, nontrivial boo
 	if complete {
 		miss := x.missing()
 		seenSig := map[string]bool{}
+		goneAtStart = x.droppedUpstream()
 		for _, m := range miss {
+			if gone(m) {
+				continue
+			}
 			sig := rootSig(m, "C05/lost/"+x.lossClass(m))
 			if seenSig[sig] {
 				continue
@@ -810,9 +827,9 @@ func fsReplay(t *testing.T, res *ev.Result, e *sched.Explorer, scs []*sched.Scen
 func TestVerifC05Resume(t *testing.T) {
 	res := ev.New("C05", "resume")
 	defer res.Write()
-	bound := 1
+	bound := 2
 	if ev.Thorough() {
-		bound = 2
+		bound = 3
 	}
 	res.Rule = "sched engine over the full stack (real MetaCDC, channel manager, readers, writer, batcher, etcd stores over fakeetcd / fakemq / fakedown): scheduling points = stream delivery (free), the downstream's answer to every replicate and DDL call and every checkpoint write, each with the alternatives proceed | fail | crash before | crash after (each non-default alternative costs one deviation), a manual pause; after a crash a new incarnation is started over the same store, downstream and source logs; paused tasks are resumed at quiescence; every execution ends, if anything is still unacknowledged, with a clean restart; oracle over the event log: a checkpoint write names the end of an acknowledged pack of its own stream with every earlier message of that stream acknowledged, acknowledgements have no gaps, checkpoints marked dropped never change, and after the final restart every source row has been acknowledged at least once"
 	fsExplore(t, res, "C05", bound, fsC05Scenarios(ev.Thorough()), 150*time.Second)
@@ -821,9 +838,9 @@ func TestVerifC05Resume(t *testing.T) {
 func TestVerifC06Failure(t *testing.T) {
 	res := ev.New("C06", "failure")
 	defer res.Write()
-	bound := 1
+	bound := 2
 	if ev.Thorough() {
-		bound = 2
+		bound = 3
 	}
 	res.Rule = "sched engine over the full stack: failure classes = downstream rejects a write (once / until resumed), the store rejects a checkpoint, two failures, the downstream rejects a drop, a message for a partition the downstream never gets; layouts = 1 task, 2 tasks on one target, 2 tasks on two targets; the failure is placed at every visible step (one deviation each); oracle at every quiescent point: the owner of the failure is Paused with a reason in memory, through list and in the store, no other task changed state, no later pack of a failed stream is acknowledged before the failed one, checkpoints stay behind acknowledgements, the process survives (a panic kills the worker), and after resume / clean restart the failed message is delivered"
 	fsExplore(t, res, "C06", bound, fsC06Scenarios(ev.Thorough()), 150*time.Second)
